@@ -1,5 +1,6 @@
 (* C01 — every PEL section is decoded once, in order, from exactly its own bytes. *)
 From Coq Require Import List NArith ZArith Bool Arith.
+From PV Require Gen.Layouts Spec.PublishedLayouts Proofs.LayoutFacts.
 From PV Require Import Base.Bytes Base.Lit Base.Json Base.Utf8 Base.Reader Base.PelTypes
                        Model.Parse Model.Render Model.Pel Model.Env Spec.Encode Spec.DocOf Spec.Choice Gen.Tables
                        Proofs.ParseFacts Proofs.SrcFacts Proofs.PelFacts Proofs.RenderFacts Proofs.NumberFacts Proofs.NumberDistinct.
@@ -88,6 +89,25 @@ Theorem C01_document : forall e c consider p trailing,
     NoDup (map fst doc).
 Proof. exact wf_document_keys. Qed.
 Print Assumptions C01_document.
+
+
+(* ---- the tie to the source text ----
+   the 8-byte section header is read by parseHeader as five unsigned big-endian integers of 2, 2, 1, 1 and 2 bytes, in this order
+   (Gen/Layouts.v, extracted on every run from the source text by harness/extract_layouts.py, equals the published table), and
+   the model's parse_header is the generic reader over that table *)
+Theorem C01_source_header_layout :
+  Gen.Layouts.ok_parseHeader = true /\ Gen.Layouts.rd_parseHeader = Spec.PublishedLayouts.rd_parseHeader.
+Proof. split; reflexivity. Qed.
+Print Assumptions C01_source_header_layout.
+
+Theorem C01_header_reader_is_layout : forall s,
+  parse_header s = match LayoutFacts.read_fields Spec.PublishedLayouts.rd_parseHeader s with
+                   | Some ([i; l; v; t; c], rest) =>
+                       Some ((LayoutFacts.num i, LayoutFacts.num l, {| h_ver := LayoutFacts.num v; h_sub := LayoutFacts.num t; h_comp := LayoutFacts.num c |}), rest)
+                   | _ => None
+                   end.
+Proof. exact LayoutFacts.header_layout. Qed.
+Print Assumptions C01_header_reader_is_layout.
 
 (* non-vacuity: a generated PEL with seven sections (two of them hexdump-only with the same id) is well-formed enough to
    decode, and its keys are numbered as stated *)
